@@ -7,6 +7,7 @@ from ..flow import Index
 from ..tables import *  # noqa
 from .. import boolpred as bp
 from .. import norm
+from .. import norm as norm_
 from .. import fmtstr, builders
 from .c02 import binding_of_pat
 
@@ -781,49 +782,173 @@ SIMPLE_SYMBOL_PUNCT = set("~!@$%^&*_-+=<>.?/")
 def identifiers(ctx, c):
     f = ctx.fn("patronus", S + "is_simple_smt_identifier")
     ix = Index(f["body"])
-    # accepted punctuation: byte literals in patterns
-    lits = set()
-    for n in walk(f["body"]):
-        if n.get("k") == "match":
-            for arm in n["arms"]:
-                for alt in pat_alts(arm["pat"]):
-                    if alt.get("k") == "plit" and alt.get("lk") == "byte":
-                        lits.add(chr(alt["v"]))
+    defs = local_defs(f)
+    p_id = (param_ids(f) + [None])[0]
+    # (1) where every character is tested: a loop over id.chars() that rejects with `return false`, or id.chars()[.enumerate()].all(pred)
+    char_ids, pos_ids = set(), set()
+    per_char = None          # ("loop", loop node) | ("all", closure)
+    for n in ix.nodes:
+        if n.get("k") == "for":
+            b_, ms_ = chain(n["iter"])
+            names = [m_[0] for m_ in ms_]
+            if is_local(b_, p_id) and names in (["chars"], ["bytes"], ["chars", "enumerate"], ["bytes", "enumerate"]):
+                per_char = ("loop", n)
+                pat = n["pat"]
+                if names[-1] == "enumerate" and pat.get("k") == "ptuple":
+                    pos_ids |= {i_ for _, i_ in pat_bindings(pat["subs"][0])}
+                    char_ids |= {i_ for _, i_ in pat_bindings(pat["subs"][1])}
+                else:
+                    char_ids |= {i_ for _, i_ in pat_bindings(pat)}
+        if n.get("k") == "mcall" and n["name"] == "all" and len(n["args"]) == 1:
+            b_, ms_ = chain(n["recv"])
+            names = [m_[0] for m_ in ms_]
+            cl = resolve(n["args"][0])
+            if is_local(b_, p_id) and names in (["chars"], ["bytes"], ["chars", "enumerate"], ["bytes", "enumerate"]) and cl.get("k") == "closure" and len(cl["params"]) == 1:
+                per_char = ("all", cl, n)
+                pat = cl["params"][0]
+                while pat.get("k") in ("pref", "pderef"):
+                    pat = pat["pat"]
+                if names[-1] == "enumerate" and pat.get("k") == "ptuple":
+                    pos_ids |= {i_ for _, i_ in pat_bindings(pat["subs"][0])}
+                    char_ids |= {i_ for _, i_ in pat_bindings(pat["subs"][1])}
+                else:
+                    char_ids |= {i_ for _, i_ in pat_bindings(pat)}
+    # `let ac = cc as u8;` and similar: further names of the character
+    lossy_cast = False
+    changed = True
+    while changed:
+        changed = False
+        for i_, d in defs.items():
+            if d[0] == "let" and "init" in d[1] and d[2].get("k") == "pbind" and i_ not in char_ids:
+                e = peel(d[1]["init"])
+                casted = False
+                while e.get("k") == "cast":
+                    casted = casted or (e.get("ty") in ("u8", "i8"))
+                    e = peel(e["e"])
+                if casted and e.get("k") == "local" and (e["id"] in char_ids or canon(e["id"]) in {canon(x) for x in char_ids}):
+                    lossy_cast = True      # `c as u8` drops the high bits: the class tests on it say nothing about a non-ASCII character
+                if e.get("k") == "local" and (e["id"] in char_ids or canon(e["id"]) in {canon(x) for x in char_ids}):
+                    char_ids.add(i_)
+                    changed = True
+    is_char = lambda e: peel(e).get("k") == "local" and (peel(e)["id"] in char_ids or canon(peel(e)["id"]) in {canon(x) for x in char_ids})
+    # the "first character" flag of the loop form: `let mut is_first = true;` ... `is_first = false;` at the end of every iteration
+    first_flags = set()
+    if per_char and per_char[0] == "loop":
+        for a in ix.nodes:
+            if a.get("k") == "assign" and peel(a["l"]).get("k") == "local" and peel(a["r"]).get("v") is False and contains(per_char[1]["body"], a) \
+                    and len(ix.regions[id(a)]) == len(ix.regions[id(per_char[1])]) + 1:
+                lid = peel(a["l"])["id"]
+                init = simple_let_init(defs, lid)
+                if init is not None and peel(init).get("v") is True and ix.precedes(defs[lid][1], per_char[1]):
+                    first_flags.add(lid)
+    other_sets = []        # character sets of the explicit punctuation tests
+
+    def atom_fn(n):
+        k = n.get("k")
+        if k == "local" and n["id"] in first_flags:
+            return "FIRST"
+        if k == "mcall" and is_char(n["recv"]) and not n["args"]:
+            return {"is_ascii": "ASCII", "is_ascii_alphabetic": "ALPHA", "is_ascii_digit": "DIGIT", "is_numeric": None, "is_alphanumeric": None, "is_alphabetic": None}.get(n["name"], {
+                "is_ascii_uppercase": "UPPER", "is_ascii_lowercase": "LOWER", "is_ascii_alphanumeric": "ALNUM", "is_ascii_punctuation": "PUNCT"}.get(n["name"]))
+        if k == "match" and is_char(n["scrut"]) and len(n["arms"]) == 2:
+            # matches!(c, b'+' | b'-' ..)
+            a0, a1 = n["arms"]
+            alts = pat_alts(a0["pat"])
+            if all(x.get("k") == "plit" and x.get("lk") in ("byte", "char") for x in alts) and peel(a0["body"]).get("v") is True and a1["pat"].get("k") == "pwild" and peel(a1["body"]).get("v") is False:
+                other_sets.append({chr(x["v"]) if isinstance(x["v"], int) else x["v"] for x in alts})
+                return "OTHER"
+        if k == "mcall" and n["name"] == "contains" and len(n["args"]) == 1 and is_char(n["args"][0]):
+            src = resolve(n["recv"])
+            if src.get("k") == "def" and src.get("path") in CONSTS:
+                src = peel(CONSTS[src["path"]])
+            if src.get("k") == "lit" and isinstance(src.get("v"), str):
+                other_sets.append(set(src["v"]))
+                return "OTHER"
+        if k == "binary" and n["op"] in ("==", "!=", ">", ">=", "<", "<=") and peel(n["l"]).get("k") == "local" and peel(n["l"])["id"] in pos_ids and peel(n["r"]).get("k") == "lit":
+            v = peel(n["r"]).get("v")
+            first = {("==", 0): True, ("!=", 0): False, (">", 0): False, (">=", 1): False, ("<", 1): True, ("<=", 0): True}.get((n["op"], v))
+            if first is not None:
+                return "FIRST" if first else "NOTFIRST"
+        return None
+    accept = None
+    why = "UNRECOGNISED: no loop over / `all` on every character of the identifier"
+    try:
+        if per_char and per_char[0] == "loop":
+            loop = per_char[1]
+            # a character passes an iteration iff none of the unconditional `if c { return false }` statements fires
+            accept = ("const", True)
+            body = loop["body"]
+            blk = body["b"] if body.get("k") == "blockexpr" else body
+            for st in blk.get("stmts", []) + ([blk["tail"]] if "tail" in blk else []):
+                st = unsemi(st)
+                if st.get("k") == "if" and "else" not in st and norm_._diverges(st["then"]):
+                    rv = [x for x in walk(st["then"]) if x.get("k") == "return"]
+                    if len(rv) == 1 and "e" in rv[0] and peel(rv[0]["e"]).get("v") is False:
+                        accept = ("and", accept, ("not", bp.extract(st["cond"], {}, defs, None, 0, None, atom_fn)))
+                        continue
+                    raise bp.Opaque(st, "exit other than `return false`")
+                if st.get("k") in ("let",) or (st.get("k") == "assign" and peel(st["l"]).get("k") == "local" and peel(st["l"])["id"] in first_flags):
+                    continue
+                raise bp.Opaque(st, "statement in the character loop")
+            # after the loop the function answers true
+            tail = norm_.result_value(f["body"])
+            if not (tail.get("k") == "lit" and tail.get("v") is True):
+                raise bp.Opaque(tail, "result after the loop")
+        elif per_char and per_char[0] == "all":
+            accept = bp.extract(per_char[1]["body"], {}, defs, None, 0, None, atom_fn)
+    except bp.Opaque as ex:
+        accept = None
+        why = "UNRECOGNISED (fail closed): the per-character test contains `%s` (%s)" % (show(ex.node)[:60], ex.why)
+    # (2) the truth table over the kinds of characters
+    kinds = {
+        "letter": dict(ASCII=True, ALPHA=True, UPPER=True, LOWER=True, ALNUM=True, DIGIT=False, OTHER=False, PUNCT=False),
+        "digit": dict(ASCII=True, ALPHA=False, UPPER=False, LOWER=False, ALNUM=True, DIGIT=True, OTHER=False, PUNCT=False),
+        "listed punctuation": dict(ASCII=True, ALPHA=False, UPPER=False, LOWER=False, ALNUM=False, DIGIT=False, OTHER=True, PUNCT=True),
+        "other ASCII": dict(ASCII=True, ALPHA=False, UPPER=False, LOWER=False, ALNUM=False, DIGIT=False, OTHER=False, PUNCT=False),
+        "non-ASCII": dict(ASCII=False, ALPHA=False, UPPER=False, LOWER=False, ALNUM=False, DIGIT=False, OTHER=False, PUNCT=False),
+    }
+    # a letter is upper XOR lower: evaluate both
+    table = {}
+    if accept is not None:
+        for kind, val in kinds.items():
+            for first in (True, False):
+                variants = [dict(val)]
+                if kind == "letter":
+                    variants = [dict(val, UPPER=True, LOWER=False), dict(val, UPPER=False, LOWER=True)]
+                if kind == "non-ASCII" and lossy_cast:
+                    # after a truncating cast the byte of a non-ASCII character can look like any ASCII character
+                    variants = [dict(kinds[k2], ASCII=False) for k2 in ("letter", "digit", "listed punctuation", "other ASCII")]
+                res = set()
+                for v in variants:
+                    v = dict(v, FIRST=first, NOTFIRST=not first)
+                    res.add(bp.ev(accept, v))
+                table[(kind, first)] = res
+    lits = set().union(*other_sets) if other_sets else set()
     extra = lits - SIMPLE_SYMBOL_PUNCT
-    ctx.inst("R05.5", "alphabet:subset", bool(lits) and not extra, f["span"], "characters %s are written unquoted but are not SMT-LIB simple_symbol characters" % sorted(extra), sample="".join(sorted(lits)))
-    P = {name: i for p in f["params"] for name, i in pat_bindings(p)}
-    loops = [n for n in ix.nodes if n.get("k") == "for"]
-    ok = len(loops) == 1
-    why = "UNRECOGNISED: expected one loop over all characters of the identifier"
-    if ok:
-        b, ms = chain(loops[0]["iter"])
-        ok = is_local(b, P.get("id")) and [m[0] for m in ms] in (["chars"], ["bytes"])
-        why = "the loop does not visit every character of the identifier: %s" % show(loops[0]["iter"])
-        if ok:
-            # the rejection `if !(alpha|num|other) {return false}` is unconditional in the loop body
-            rej = []
-            for n in walk(loops[0]["body"]):
-                if n.get("k") == "if" and peel(n["cond"]).get("k") == "unary" and "is_other_allowed_char" in show(n["cond"]):
-                    rej.append(n)
-            ok = len(rej) == 1 and len(ix.regions[id(rej[0])]) == len(ix.regions[id(loops[0])]) + 1 and "return false" in show(rej[0]["then"])
-            why = "the allowed-character test is not applied unconditionally to every character (including the first)"
-            if ok:
-                cs = show(rej[0]["cond"]).replace(" ", "")
-                ok = "is_alpha" in cs and "is_num" in cs
-                # classes: alpha = upper|lower, num = digit
-                defs = local_defs(f)
-                def init_txt(nm):
-                    for i, d in defs.items():
-                        if d[0] == "let" and d[2].get("name") == nm:
-                            return show(d[1]["init"])
-                    return ""
-                ok = ok and "is_ascii_uppercase" in init_txt("is_alpha") and "is_ascii_lowercase" in init_txt("is_alpha") and "is_ascii_digit" in init_txt("is_num") and "is_ascii_alphanumeric" not in init_txt("is_other_allowed_char")
-                why = "character classes: %s / %s" % (init_txt("is_alpha"), init_txt("is_num"))
+    ctx.inst("R05.5", "alphabet:subset", bool(lits) and not extra and all(ord(ch) < 128 for ch in lits), f["span"], "characters %s are written unquoted but are not SMT-LIB simple_symbol characters" % sorted(extra), sample="".join(sorted(lits)))
+    ok = accept is not None and all(table[(k_, fi)] == {True} for k_ in ("letter", "listed punctuation") for fi in (True, False)) and table[("other ASCII", True)] == {False} and table[("other ASCII", False)] == {False} \
+        and table[("digit", False)] == {True}
+    if accept is not None and not ok:
+        why = "the per-character test accepts %s" % sorted("%s%s" % (k_, " (first)" if fi else "") for (k_, fi), r in table.items() if True in r)
     ctx.inst("R05.5", "every-character-tested", ok, f["span"], why)
-    txt = show(f["body"]).replace(" ", "")
-    ctx.inst("R05.5", "empty-rejected", "ifid.is_empty(){returnfalse}" in txt, f["span"], "the empty name must not be written unquoted")
-    ctx.inst("R05.5", "leading-digit-rejected", "if(is_num&&is_first){returnfalse}" in txt and "is_first=false" in txt, f["span"], "a name starting with a digit must not be written unquoted")
-    ctx.inst("R05.5", "non-ascii-rejected", "if!cc.is_ascii(){returnfalse}" in txt, f["span"], "non-ASCII characters must force quoting")
+    # the empty name: rejected before / besides the per-character test
+    empties = [n for n in ix.nodes if n.get("k") == "mcall" and n["name"] == "is_empty" and is_local(n["recv"], p_id)]
+    ok_empty = False
+    for n in empties:
+        # `if id.is_empty() { return false }` or `!id.is_empty() && ...` as (part of) the result
+        for c_, pol in norm_.path_conditions(ix, n):
+            pass
+        par = ix.parent.get(id(n))
+        if par is not None and par.get("k") == "if" and peel(par["cond"]) is n and norm_._diverges(par["then"]):
+            rv = [x for x in walk(par["then"]) if x.get("k") == "return" and "e" in x and peel(x["e"]).get("v") is False]
+            ok_empty = ok_empty or len(rv) == 1
+        res = norm_.result_value(f["body"])
+        if res.get("k") == "binary" and res["op"] == "&&":
+            cj = conjuncts(res)
+            ok_empty = ok_empty or any(x.get("k") == "unary" and x["op"] == "!" and resolve(x["e"]) is n for x in cj)
+    ctx.inst("R05.5", "empty-rejected", ok_empty, f["span"], "the empty name must not be written unquoted")
+    ctx.inst("R05.5", "leading-digit-rejected", accept is not None and table.get(("digit", True)) == {False}, f["span"], "a name starting with a digit must not be written unquoted")
+    ctx.inst("R05.5", "non-ascii-rejected", accept is not None and table.get(("non-ASCII", True)) == {False} and table.get(("non-ASCII", False)) == {False}, f["span"], "non-ASCII characters must force quoting")
     g = ctx.fn("patronus", S + "escape_smt_identifier")
     gt = show(g["body"])
     sites = fmtstr.macro_sites(c, g["body"], ("format",))
